@@ -975,9 +975,9 @@ func (g *Graph) ReachFromTracked(from *V, startAt bool, avoid *Avoid) map[*V]boo
 			if avoid.e(x, e.Label) {
 				continue
 			}
-			push(e.To, store)
+			push(e.To, g.refineNil(x, e.Label, store, env.only))
 		}
-		if len(seen) > 50000 {
+		if len(seen) > 6000 {
 			return g.reachPlain(from, startAt, avoid)
 		}
 	}
@@ -1024,4 +1024,33 @@ func (g *Graph) untrackedVars() map[types.Object]bool {
 		g.unt = untracked(g.Info, body, skip)
 	})
 	return g.unt
+}
+
+// refineNil: leaving a nil test of a tracked local through one of its edges
+// tells whether the local is nil (0) or not (1).
+func (g *Graph) refineNil(x *V, l EdgeLabel, store map[types.Object]int64, tracked map[types.Object]bool) map[types.Object]int64 {
+	if x.Cond == nil || x.Cond.Expr == nil || l == EdgeNone {
+		return store
+	}
+	out := store
+	for _, a := range x.Implied(l) {
+		obj, k, eq, ok := g.flagTest(a)
+		if !ok || k != 0 || !nilable(obj) || !tracked[obj] {
+			continue
+		}
+		if _, known := out[obj]; known {
+			continue
+		}
+		cp := make(map[types.Object]int64, len(out)+1)
+		for kk, vv := range out {
+			cp[kk] = vv
+		}
+		if eq {
+			cp[obj] = 0
+		} else {
+			cp[obj] = 1
+		}
+		out = cp
+	}
+	return out
 }
